@@ -2,7 +2,7 @@
 import numpy as np
 
 from pbt import ir, render
-from pbt.harness import PropertyViolation
+from pbt.harness import PropertyViolation, Inconclusive
 
 
 class StepBudget(BaseException):
@@ -107,6 +107,10 @@ def check_path(key, case, X, counts, T, x0, t0, V, exact):
     if exact and steps and not ((counts.sum(axis=1) == 1).all() and (counts.max(axis=1) == 1).all()):
         raise PropertyViolation(key + "/exact-one-event", "exact mode reported a step without exactly one event", case)
     if steps:
+        # X[k+1]-X[k] == V*counts is an integer identity; float64 stops representing integers exactly at 2**53 (an adaptive
+        # tau step on nearly constant propensities can leap 1e15 events at once), so beyond that the case is undecidable here
+        if max(float(np.abs(X.astype(float)).max()), float(np.abs(counts).max()) * max(1.0, float(np.abs(V).max()))) >= 2.0 ** 51:
+            raise Inconclusive("populations beyond exactly representable integers")
         dX = np.diff(X.astype(float), axis=0)
         want = counts.dot(V.T.astype(float))
         if not np.array_equal(dX, want):
